@@ -197,6 +197,13 @@ def main(argv):
                 continue
             if not (isinstance(flags, int) and 0 <= flags < 65536):
                 ctx.violation("flags outside 16 bits", dict(case, flags=flags), tags=tags)
+            # the pickle protocol that was configured is the one the payload is written in (a frame of protocol >= 2 starts with PROTO <n>;
+            # protocols 0 and 1 have no such header) - another protocol may round-trip today and not be readable by the peer that asked for this one
+            if sname.startswith("pickle") and sname[6:].isdigit() and isinstance(flags, int) and flags & serde.FLAG_PICKLE and isinstance(payload, bytes):
+                want_p = int(sname[6:])
+                got_p = payload[1] if payload[:1] == b"\x80" and len(payload) > 1 else None
+                if (want_p >= 2 and got_p != want_p) or (want_p < 2 and got_p is not None):
+                    ctx.violation("the value was pickled with another protocol than the configured one", dict(case, configured=want_p, payload_starts=hx(payload[:4])), tags=tags + ["pickle-protocol"])
             try:
                 back = sd.deserialize("k", wire, flags)
             except Exception as e:
